@@ -380,6 +380,7 @@ fn check_decoders(ctx: &Ctx, c: &mut Collector, e: &Enc) {
     let mut prev32 = f32::NEG_INFINITY;
     let mut prev64 = f64::NEG_INFINITY;
     let mut n = 0u64;
+    let mut f32_exact = 0u64;
     for code in 0..=e.max {
         let want = e.tf.decode(code as f64 / maxf);
         let d32 = (e.f32_dec)(code);
@@ -390,8 +391,16 @@ fn check_decoders(ctx: &Ctx, c: &mut Collector, e: &Enc) {
         // generated with the continuity-corrected offset (codegen/src/lut.rs: alpha =
         // 1.0550107… for sRGB), which differs from the IEC closed form by <= 1.5e-8. The
         // curve is therefore only defined to ~1e-7 (the suite's own tolerance).
-        let t32 = 1e-7 + 1.5 * pv::fl::ulp32(want as f32);
-        let t64 = 1e-7;
+        // Pure power laws (Adobe RGB, P3 gamma) have no knee and no inconsistent constants: there the
+        // curve is exact and the entries must be the closed form rounded to the float type.
+        let pure_power = matches!(e.tf, Tf::Adobe | Tf::P3Gamma | Tf::Linear);
+        let t32 = if pure_power { 1.5 * pv::fl::ulp32(want as f32) } else { 1e-7 + 1.5 * pv::fl::ulp32(want as f32) };
+        let t64 = if pure_power { 1e-13 + 4.0 * f64::EPSILON * want } else { 1e-7 };
+        // an f64 decoder must carry f64 precision: entries that are exactly representable in f32 are
+        // rare accidents (0, 1, powers of two); an f64 table filled from f32 values has all of them
+        if (d64 as f32) as f64 == d64 {
+            f32_exact += 1;
+        }
         let e32 = (d32 as f64 - want).abs();
         let e64 = (d64 - want).abs();
         c.ratio(&sub, e32 / t32, || json!({"code": code, "f32": d32, "ref": want}));
@@ -421,6 +430,12 @@ fn check_decoders(ctx: &Ctx, c: &mut Collector, e: &Enc) {
         }
         c.outcome(d64.to_bits());
         n += 1;
+    }
+    // (measured on the unchanged tree: exactly 2 entries, 0 and 1, of every table are f32-exact)
+    let allowed = 8u64;
+    c.note(&format!("dec/{}/f64-entries-exactly-representable-in-f32", e.name), json!({"count": f32_exact, "allowed": allowed}));
+    if f32_exact > allowed {
+        c.violation(&format!("C05/decode-f64-precision/{}", e.name), f32_exact as f64, || case("dec", e.name, "f64", json!("all codes"), json!({"f64 entries exactly representable in f32": f32_exact}), json!({"at most": allowed})));
     }
     let z32 = (e.f32_dec)(0);
     let z64 = (e.f64_dec)(0);
@@ -809,6 +824,9 @@ fn check_wrappers(ctx: &Ctx, c: &mut Collector) {
     wrap_luma!("AdobeRgb", encoding::AdobeRgb, encoding::AdobeRgb);
     wrap_luma!("DciP3", encoding::DciP3, encoding::P3Gamma);
     wrap_luma!("ProPhotoRgb", encoding::ProPhotoRgb, encoding::ProPhotoRgb);
+    wrap_luma!("Rec2020", encoding::Rec2020, encoding::RecOetf);
+    wrap_luma!("DisplayP3", encoding::DisplayP3, encoding::Srgb);
+    wrap_luma!("DciP3Plus", encoding::DciP3Plus<encoding::P3Gamma>, encoding::P3Gamma);
     wrap!("Srgb", encoding::Srgb, encoding::Srgb);
     wrap!("Rec709", encoding::Rec709, encoding::RecOetf);
     wrap!("Rec2020", encoding::Rec2020, encoding::RecOetf);
